@@ -234,6 +234,10 @@ PROPS = {
 NOT_APPLICABLE = {}
 
 
+# Engine B modules that are finished and reviewed (a module file may exist while still in work)
+READY_MODULES = {"c06", "c10", "c15", "c16", "c17", "c18", "c19", "lexbias"}
+
+
 def available(pid):
     """a property is claimed only if its Engine B module exists (or it needs none)"""
     b = PROPS[pid].get("bounded")
@@ -253,4 +257,4 @@ def available(pid):
 
     if b:
         collect(b)
-    return all(os.path.exists(os.path.join(HERE, "bounded", m + ".py")) for m in mods)
+    return all(m in READY_MODULES and os.path.exists(os.path.join(HERE, "bounded", m + ".py")) for m in mods)
